@@ -264,3 +264,33 @@ var readOnly = map[string]bool{"get": true, "mget": true, "strlen": true, "getra
 	"sunion": true, "sinter": true, "sdiff": true, "zrange": true, "zrank": true, "xrange": true, "ping": true}
 
 func isReadOnly(a []B) bool { return len(a) > 0 && readOnly[strings.ToLower(string(a[0]))] }
+
+// ownerProp names the property whose statement covers the command, so that a
+// defect of HSET met while checking lists is still labelled C10.
+func ownerProp(a []B, dflt string) string {
+	if len(a) == 0 {
+		return dflt
+	}
+	switch strings.ToLower(string(a[0])) {
+	case "set", "get", "mset", "mget", "setnx", "setex", "append", "strlen", "getrange", "setrange", "incr", "decr", "incrby", "decrby",
+		"incrbyfloat", "del", "exists", "type", "rename", "keys", "ping":
+		return "C01"
+	case "expire", "ttl", "persist":
+		return "C06"
+	case "lpush", "rpush", "lpushx", "rpushx", "lpop", "rpop", "llen", "lindex", "lrange", "lset", "lrem", "ltrim", "lpos", "lmove", "blpop", "brpop":
+		return "C09"
+	case "hset", "hsetnx", "hget", "hmget", "hgetall", "hkeys", "hvals", "hlen", "hexists", "hstrlen", "hdel", "hincrby", "hincrbyfloat", "hrandfield":
+		return "C10"
+	case "sadd", "srem", "sismember", "scard", "smembers", "smove", "spop", "srandmember", "sunion", "sinter", "sdiff", "sunionstore", "sinterstore", "sdiffstore":
+		return "C11"
+	case "zadd", "zrem", "zrange", "zrank":
+		return "C12"
+	case "xadd", "xrange":
+		return "C18"
+	case "select":
+		return "C20"
+	case "publish", "subscribe":
+		return "C19"
+	}
+	return dflt
+}
